@@ -62,13 +62,16 @@ class C08(Property):
         "equivalent/foreign units, incompatible units, wrong size, memory-sharing re-publication) and pulls (on, between, exactly midway, "
         "before the oldest retained, after the newest) over grids {NoGrid 0-2 D, uniform/rectilinear/ESRI in all layouts with re-laid-out "
         "consumers, unstructured cells/points} and unit pairs; non-trivial = >=2 publications and >=1 served pull between publications; "
-        "distinct by (grid, units, mask mode, payload forms, event pattern)"
+        "distinct by (grid, units, mask mode, payload forms, event pattern); every 12th case drives a pull-based source (CallbackOutput) with 1-3 "
+        "consumers whose callback hands out fresh arrays, the previous array again or a view of it (plain or as quantity)"
     )
     assumptions = ("oldest retained entry is read from the public attribute Output.data (retention itself is C09's subject)",)
     cases = {"quick": 12000, "thorough": 1000000}
     min_nontrivial = {"quick": 6000, "thorough": 300000}
 
     def gen(self, rnd, i, tier):
+        if i % 12 == 11:
+            return self._gen_callback(rnd)
         r = rnd.random()
         if r < 0.25:
             nd = rnd.randint(0, 2)
@@ -105,7 +108,68 @@ class C08(Property):
                     memory=rnd.choice([None, None, None, 0, 64, 300]))
 
     # ----------------------------------------------------------------------------------
+    # pull-based sources (CallbackOutput, used by the shipped WeightedSum / noise / parametric components): each pull is a
+    # publication made on demand; with several consumers the publication sharing memory with the previous one may be triggered
+    # by another consumer than the previous one was
+    def _gen_callback(self, rnd):
+        n_cons = rnd.choice([1, 2, 2, 3])
+        script, tcur = [], 0
+        for _ in range(rnd.randint(3, 12)):
+            tcur += rnd.choice([0, 1, 2, 60, 3600, 90000])
+            script.append([rnd.randrange(n_cons), tcur, rnd.choice(["fresh", "fresh", "fresh", "same", "view", "quantity_fresh", "quantity_same"])])
+        return dict(callback=dict(n_cons=n_cons, size=rnd.randint(1, 5), script=script), units=list(rnd.choice(UNIT_PAIRS)))
+
+    def _run_callback(self, spec):
+        out = Outcome()
+        out.sample = spec
+        cb, (pu, cu) = spec["callback"], spec["units"]
+        n = cb["size"]
+        state = dict(next=None)
+        src = fm.CallbackOutput(callback=lambda _o, _t: state["next"], name="out", info=fm.Info(time=slots.T0, grid=fm.NoGrid(1), units=pu))
+        inputs = [fm.Input(name=f"in{k}", info=fm.Info(time=slots.T0, grid=fm.NoGrid(1), units=cu)) for k in range(cb["n_cons"])]
+        slots.wire(src, [], inputs)
+        slots.exchange(inputs)
+        last_arr, last_cons, accepted, k = None, None, 0, 0
+        for cons, tsec, how in cb["script"]:
+            shares = how in ("same", "view", "quantity_same") and last_arr is not None
+            if shares:
+                arr = last_arr if how != "view" else last_arr[...]
+            else:
+                k += 1
+                arr = np.arange(n, dtype=float) + k * STEP
+            vals = np.array(arr, dtype=float)
+            state["next"] = fm.UNITS.Quantity(arr, pu) if how.startswith("quantity") else arr
+            try:
+                got = inputs[cons].pull_data(slots.t(tsec))
+                refused = False
+            except fm.FinamDataError:
+                refused = True
+            out.count("callback_pulls")
+            if shares:
+                other = "other_consumer" if cons != last_cons else "same_consumer"
+                if not refused:
+                    out.viol("callback_shared_accepted", f"pull-based source handed out an array sharing memory with its previous publication "
+                             f"(made for consumer {last_cons}, now for consumer {cons}) and it was accepted", spec=spec)
+                    return out
+                out.count("callback_shared_refused_" + other)
+                continue
+            if refused:
+                out.viol("callback_fresh_refused", f"pull-based source: a fresh array was refused (consumer {cons}, t={tsec}s)", spec=spec)
+                return out
+            mag = got.magnitude
+            if mag.shape != (1, n) or got.units != fm.UNITS.Unit(cu) or not np.allclose(np.ma.getdata(mag)[0], o_convert(vals, pu, cu), rtol=1e-11, atol=1e-9):
+                out.viol("callback_value", f"pull-based source: delivered {mag.tolist()} {got.units}, published {vals.tolist()} {pu}, consumer units {cu}", spec=spec)
+                return out
+            last_arr, last_cons = arr, cons
+            accepted += 1
+            out.count("callback_publications")
+        if accepted >= 2:
+            out.key = repr(("callback", cb["n_cons"], n, pu, cu, [(c, h) for c, _t, h in cb["script"]]))
+        return out
+
     def run(self, spec):
+        if "callback" in spec:
+            return self._run_callback(spec)
         out = Outcome()
         out.sample = spec
         g = spec["grid"]
@@ -328,7 +392,8 @@ class C08(Property):
 
     def coverage_gaps(self, counters, tier):
         need = ["publications", "served_pulls", "pulls_between_publications", "midpoint_pulls", "out_of_range_refused", "relayout_cases",
-                "bad_push_refused_push_shared", "bad_push_refused_push_view", "bad_push_refused_push_incompatible", "bad_push_refused_push_wrong_size"]
+                "bad_push_refused_push_shared", "bad_push_refused_push_view", "bad_push_refused_push_incompatible", "bad_push_refused_push_wrong_size",
+                "callback_publications", "callback_shared_refused_other_consumer", "callback_shared_refused_same_consumer"]
         return [f"{k} never observed" for k in need if not counters.get(k)]
 
 
